@@ -73,9 +73,11 @@ def build(case):
             else:
                 fill(grp.add_subsystem('g%d' % ch['g'], om.ParallelGroup() if ch.get('par') else om.Group()), ch)
     fill(p.model, case['tree'])
+    late = {(a, b) for a, b in case.get('late', [])}
     for c in case['comps']:
         for k, (coef, src) in enumerate(c['terms']):
-            p.model.connect(cp[src] + '.y', cp[c['id']] + '.x%d' % k)
+            if (c['id'], k) not in late:
+                p.model.connect(cp[src] + '.y', cp[c['id']] + '.x%d' % k)
     p.setup()
     for c in case['comps']:
         for k, (coef, v) in enumerate(c['free']):
@@ -97,6 +99,16 @@ def handle(case):
         p.run_model()
         del TRACE[:]
         CALLS.clear()
+        # connections added after the first round, on the lowest group that contains both ends
+        for c in case['comps']:
+            for k, (coef, src) in enumerate(c['terms']):
+                if [c['id'], k] in case.get('late', []):
+                    a, b = cp[src].split('.'), cp[c['id']].split('.')
+                    n = 0
+                    while n < len(a) - 1 and n < len(b) - 1 and a[n] == b[n]:
+                        n += 1
+                    grp = p.model._get_subsystem('.'.join(a[:n])) if n else p.model
+                    grp.connect('.'.join(a[n:]) + '.y', '.'.join(b[n:]) + '.x%d' % k)
         p.setup()
         for c in case['comps']:
             for k, (coef, v) in enumerate(c['free']):
